@@ -1527,40 +1527,38 @@ class TaskPool:
                 # for an upcoming flow merge before spawning ... then spawn it.
                 c_task = self.spawn_task(c_name, c_point, itask.flow_nums)
 
-            tasks: List[TaskProxy]
-            if c_task is not None:
-                # Have child task, update its prerequisites.
-                if is_abs:
-                    # NOTE: Absolute triggers can have an infinite number of
-                    # graph children, so only the first match is listed. We
-                    # satisfy the prerequisite for all other tasks of the same
-                    # name in the pool, future task instances have their
-                    # prereqs satisfied from the DB at spawn-time.
-                    matched, _unmatched = self.id_match(
-                        {TaskTokens(cycle='*', task=c_name)},
-                        only_match_pool=True,
-                    )
-                    tasks = self.get_itasks(matched)
-                    if c_task not in tasks:
-                        tasks.append(c_task)
-                else:
-                    tasks = [c_task]
+            tasks: List[TaskProxy] = []
+            if is_abs:
+                # NOTE: Absolute triggers can have an infinite number of
+                # graph children, so only the first match is listed. We
+                # satisfy the prerequisite for all other tasks of the same
+                # name in the pool (even if the listed one cannot be
+                # spawned, e.g. it has already run), future task instances
+                # have their prereqs satisfied from the DB at spawn-time.
+                matched, _unmatched = self.id_match(
+                    {TaskTokens(cycle='*', task=c_name)},
+                    only_match_pool=True,
+                )
+                tasks = self.get_itasks(matched)
+            if c_task is not None and c_task not in tasks:
+                tasks.append(c_task)
 
-                for t in tasks:
-                    t.satisfy_me(
-                        [itask.tokens.duplicate(task_sel=output)],
-                        mode=itask.run_mode
-                    )
-                    self.data_store_mgr.delta_task_prerequisite(t)
-                    if not in_pool:
-                        self.add_to_pool(t)
+            # Have child task(s), update prerequisites.
+            for t in tasks:
+                t.satisfy_me(
+                    [itask.tokens.duplicate(task_sel=output)],
+                    mode=itask.run_mode
+                )
+                self.data_store_mgr.delta_task_prerequisite(t)
+                if not in_pool and t is c_task:
+                    self.add_to_pool(t)
 
-                    # Event-driven suicide.
-                    if (
-                        t.state.suicide_prerequisites and
-                        t.state.suicide_prerequisites_all_satisfied()
-                    ):
-                        suicide.append(t)
+                # Event-driven suicide.
+                if (
+                    t.state.suicide_prerequisites and
+                    t.state.suicide_prerequisites_all_satisfied()
+                ):
+                    suicide.append(t)
 
         for c_task in suicide:
             if self.config.experimental.expire_triggers:
